@@ -71,6 +71,24 @@ def closure_preds(ctx, suite, case, p, y, key='C01:closure'):
             break
     ctx.pred(suite, case, ok, 'closure relation violated: ' + why, key=key)
 
+def wiring_ok(p, sd):
+    """independent statement of the wiring of a PRISM object created from the System described by `sd`"""
+    n = sd['n']; types = p.sys.types; ok = True; why = ''
+    for (i, j) in G.pairs_of(n):
+        pr = sd['pairs']['%d%d' % (i, j)]
+        clo = p.sys.closure[types[i], types[j]]; U = p.sys.potential[types[i], types[j]]
+        sig = (sd['diam'][i] + sd['diam'][j]) / 2
+        want_usig = pr['pot'][1] if pr['pot'][1] is not None else sig
+        Uref = G.mk_pot(pr['pot']); Uref.sigma = want_usig
+        with np.errstate(all='ignore'):
+            uref = Uref.calculate(p.sys.domain.r) / sd['kT']
+        if not (getattr(clo, 'sigma', None) == sig and U.sigma == want_usig and getattr(clo, 'potential', None) is not None and np.allclose(clo.potential, uref, rtol=1e-12, atol=0, equal_nan=True)):
+            ok = False; why = 'pair %d%d sigma %r/%r potential mismatch' % (i, j, getattr(clo, 'sigma', None), U.sigma); break
+        oref = np.asarray(G.mk_om(pr['om']).calculate(p.sys.domain.k), dtype=float) * (sd['dens'][i] if i == j else sd['dens'][i] + sd['dens'][j])
+        if not (np.allclose(p.omega.data[:, i, j], oref, rtol=1e-12, atol=1e-300) and np.array_equal(p.omega.data[:, i, j], p.omega.data[:, j, i])):
+            ok = False; why = 'pair %d%d omega*site density mismatch' % (i, j); break
+    return ok, why
+
 def suite_wiring(ctx, case):
     sd = case['sys']
     s = G.build_system(sd); G.feed(ctx.drv, sd)
@@ -82,22 +100,19 @@ def suite_wiring(ctx, case):
     if p is None: return None
     line = G.wiring_tok(p)
     ctx.corr('wiring', case, ctx.drv.ask('prism.wiring'), line, rtol=1e-11, atols=G.group_atols(line, 1e-12), what='closure.sigma / potential.sigma / U(r)/kT / omega*rho_site')
-    # independent statement of the wiring
-    n = sd['n']; types = s.types; ok = True; why = ''
-    for (i, j) in G.pairs_of(n):
-        pr = sd['pairs']['%d%d' % (i, j)]
-        clo = p.sys.closure[types[i], types[j]]; U = p.sys.potential[types[i], types[j]]
-        sig = (sd['diam'][i] + sd['diam'][j]) / 2
-        want_usig = pr['pot'][1] if pr['pot'][1] is not None else sig
-        Uref = G.mk_pot(pr['pot']); Uref.sigma = want_usig
-        with np.errstate(all='ignore'):
-            uref = Uref.calculate(p.sys.domain.r) / sd['kT']
-        if not (clo.sigma == sig and U.sigma == want_usig and np.allclose(clo.potential, uref, rtol=1e-12, atol=0, equal_nan=True)):
-            ok = False; why = 'pair %d%d sigma %r/%r potential mismatch' % (i, j, clo.sigma, U.sigma); break
-        oref = np.asarray(G.mk_om(pr['om']).calculate(p.sys.domain.k), dtype=float) * (sd['dens'][i] if i == j else sd['dens'][i] + sd['dens'][j])
-        if not (np.allclose(p.omega.data[:, i, j], oref, rtol=1e-12, atol=1e-300) and np.array_equal(p.omega.data[:, i, j], p.omega.data[:, j, i])):
-            ok = False; why = 'pair %d%d omega*site density mismatch' % (i, j); break
+    ok, why = wiring_ok(p, sd)
     ctx.pred('wiring', case, ok and p.omega.space == Space.Fourier, 'PRISM wiring differs from the System: ' + why, key='C01:wiring')
+    if case.get('second'):
+        # a second PRISM object is spawned from the SAME System after kT and a diameter were changed (a scan): the first object
+        # must still carry the inputs it was created with
+        before = G.wiring_tok(p)
+        s.kT = sd['kT'] * 2.0
+        s.diameter[s.types[0]] = sd['diam'][0] + sd['dom'][1]
+        with warnings.catch_warnings():
+            warnings.simplefilter('ignore'); p2 = s.createPRISM()
+        same = G.wiring_tok(p) == before
+        ctx.pred('wiring', case, same, 'creating a second PRISM object from the same System (after changing kT and a diameter) changed the first object', key='C01:wiring')
+        ctx.corr('wiring', case, ctx.drv.ask('prism.wiring'), G.wiring_tok(p), rtol=1e-11, atols=G.group_atols(before, 1e-12), what='first PRISM object after a second one was created')
     return p
 
 def suite_cost(ctx, case):
@@ -241,8 +256,8 @@ def generate(ctx):
     for _ in range(ctx.n(60, 600)):
         sd = G.gen_system(rng, maxn=3, maxL=ctx.n(32, 128))
         if sd['n'] >= 2 and rng.random() < 0.4: uniformise(rng, sd)
-        case = {'sys': sd}
-        ctx.case('wiring', case, sd['n'] >= 2, tags=tags_of(sd)); suite_wiring(ctx, case)
+        case = {'sys': sd, 'second': rng.random() < 0.4}
+        ctx.case('wiring', case, sd['n'] >= 2, tags=tags_of(sd) + (['second-prism'] if case['second'] else [])); suite_wiring(ctx, case)
     for _ in range(ctx.n(60, 500)):
         sd = G.gen_system(rng, maxn=3, maxL=ctx.n(24, 64))
         xs = [G.gen_x(rng, sd, k) for k in ('zero', rng.choice(['small', 'moderate']), rng.choice(['moderate', 'asym']))]
